@@ -482,10 +482,10 @@ func checkC20Att(c C20Att, st *stats.Collector) error {
 	sink := &hashSink{h: sha256.New()}
 	mw, err := mcap.NewWriter(sink, &mcap.WriterOptions{Chunked: c.Chunked, ChunkSize: 1 << 20, IncludeCRC: c.CRC})
 	if err != nil {
-		return pk.Failf("harness", "NewWriter: %v", err)
+		return pk.Failf("write-error", "NewWriter on a plain sink: %v", err)
 	}
 	if err := mw.WriteHeader(&mcap.Header{}); err != nil {
-		return pk.Failf("harness", "WriteHeader: %v", err)
+		return pk.Failf("write-error", "WriteHeader on a plain sink: %v", err)
 	}
 	before := allocated()
 	err = mw.WriteAttachment(&mcap.Attachment{LogTime: 1, Name: "big", DataSize: uint64(c.Size), Data: &patternReader{n: c.Size}})
@@ -515,7 +515,7 @@ func checkC20Att(c C20Att, st *stats.Collector) error {
 		return err
 	}})
 	if err != nil {
-		return pk.Failf("harness", "NewLexer: %v", err)
+		return pk.Failf("read-error", "NewLexer on the streamed file: %v", err)
 	}
 	before = allocated()
 	for {
